@@ -590,7 +590,24 @@ func (ex *Exec) conv(fr *frame, instr *ssa.Convert, tdst, tsrc types.Type, x Val
 	case srcInt && isString(udst):
 		xi, ok := x.(int64)
 		if !ok {
-			panic(unsupported("string(symbolic rune)"))
+			// a symbolic rune: run the real utf8.AppendRune on it (forks per encoding length)
+			pkg := ex.w.prog.ssa.ImportedPackage("unicode/utf8")
+			if ks.w > 32 || pkg == nil || pkg.Func("AppendRune") == nil {
+				panic(unsupported("string(symbolic rune)"))
+			}
+			t := x.(*Term)
+			if t.Sort.K == SInt {
+				panic(unsupported("string(order-only value)"))
+			}
+			if ks.w < 32 {
+				if ks.signed {
+					t = ex.tc.SExt(t, 32)
+				} else {
+					t = ex.tc.ZExt(t, 32)
+				}
+			}
+			res := ex.callFunction(nil, pkg.Func("AppendRune"), []Value{[]Value(nil), t})
+			return mkStr(res.([]Value))
 		}
 		if xi < 0 || xi > utf8.MaxRune {
 			return "�"
